@@ -39,6 +39,7 @@ type SeqSpec struct {
 	Key      func(w *World) string
 	ICacheSz uint64
 	ViaXDR   bool
+	Prep     string // start from this prepared state (see Prepared) instead of a fresh file system + Setup
 }
 
 var seqSpecs = map[string]*SeqSpec{}
@@ -203,6 +204,8 @@ func seqExpand(raw json.RawMessage) (interface{}, error) {
 	var img *vdisk.Image
 	if spec.Image != nil {
 		img = spec.Image()
+	} else if spec.Prep != "" {
+		img = nil // (the prepared state carries its own image)
 	} else {
 		img = cachedMkfs(spec.DiskSize)
 	}
@@ -223,8 +226,21 @@ func seqExpand(raw json.RawMessage) (interface{}, error) {
 		if spec.ICacheSz != 0 {
 			fstxn.ICACHESZ = spec.ICacheSz
 		}
-		res := vrt.Run(vrt.Config{Horizon: 3_000_000}, func() {
-			w := NewWorld(img)
+		var prep *Prepared
+		if spec.Prep != "" {
+			prep = prepared(spec.Prep)
+		}
+		hz := 3_000_000
+		if prep != nil {
+			hz = 100_000_000
+		}
+		res := vrt.Run(vrt.Config{Horizon: hz}, func() {
+			var w *World
+			if prep != nil {
+				w = prep.World()
+			} else {
+				w = NewWorld(img)
+			}
 			w.Model.StrictStale = spec.Strict
 			w.Model.AllowImplFail = spec.AllowImplFail
 			w.ViaXDR = spec.ViaXDR
